@@ -80,5 +80,13 @@ func checkSpecs() map[string]CheckSpec {
 	}, Explanation: "xy.ConvexHullFlat / ConvexHull executed symbolically on integer-grid point multisets (de-duplication tree, radial sort with the real sort.Sort, Graham scan, cleanRing, octagon reduction); result compared with exact hull conditions.",
 		Assumptions: []string{"summary: bigxy.OrientationIndex = sign of the exact determinant (C10, grid <= 2^25)"},
 		Outside: []string{"more distinct points than the bound; 6..50 points; more than 53 points", "non-grid floats"}})
+	c15 := func(f string) HarnessSpec {
+		return HarnessSpec{Func: f, Domain: X, RealInputs: true, NonFinite: true, Covers: []string{"end"}}
+	}
+	add(CheckSpec{Property: "C15", Harnesses: []HarnessSpec{
+		c15("HC15_PointLine2D"), c15("HC15_Perpendicular2D"), c15("HC15_PointLineString2D"), c15("HC15_LineLine2D"), c15("HC15_LineLine2DSym"),
+		c15("HC15_Point3D"), c15("HC15_LineLine3D"), c15("HC15_LineLine3DSym"),
+	}, Explanation: "2D and 3D distance functions executed symbolically over all real ordinates of the range; sqrt as r>=0, r*r=x; results compared with division-free exact specifications.",
+		Outside: []string{"the 1e-9 relative rounding tolerance (claims are about the real-number semantics of the code)"}})
 	return m
 }
